@@ -300,3 +300,43 @@ def slice_scan(crate, fn, seq, max_paths=4000):
     for p in S.run(fn, args=args):
         out.append((p, slice_index(S, cell, p)))
     return S, out
+
+
+def worker_inline(crate, root, named=()):
+    """helper_inline, plus: when the evaluated function `root` is a thin wrapper (no loop of its own) its direct
+    local callees in the parse module are looked through even if they loop - `parse_list` delegating to a shared
+    `parse_list_with::<A>` is evaluated as the code it runs.  (Calls a rule's hook answers are never inlined.)"""
+    from . import cfg
+    base = helper_inline(crate, named)
+    thin = not cfg.back_edges(root)
+
+    def inline(a, b):
+        if base(a, b):
+            return True
+        return thin and a.path == root.path and b.crate == crate.name and b.kind != "closure" \
+            and (b.file.endswith("parse/mod.rs") or b.file.endswith("parse/read.rs")) \
+            and not any(root.path in F.callee_names(t) for _, t in b.calls())
+    return inline
+
+
+def type_instances(crate, fn):
+    """For a function generic over a type parameter it calls trait methods on (`A::expect(self)`): the bindings
+    {parameter: implementing type} to evaluate it under, one per local impl of that trait; [{}] otherwise."""
+    gens = [g for g in (fn.d.get("generics") or []) if not g.startswith("'")]
+    need = {}
+    for _, t in fn.calls():
+        c = t["callee"]
+        if c.get("trait") and "resolved" not in c and c.get("substs") and c["substs"][0] in gens:
+            need.setdefault(c["substs"][0], set()).add(c["trait"])
+    if not need:
+        return [{}]
+    outs = [{}]
+    for g, traits in sorted(need.items()):
+        tys = None
+        for tr in traits:
+            impls = {f.self_ty for f in crate.fns if f.impl_trait == tr and f.self_ty and f.kind != "closure"}
+            tys = impls if tys is None else (tys & impls)
+        if not tys:
+            return [{}]
+        outs = [dict(o, **{g: ty}) for o in outs for ty in sorted(tys)]
+    return outs
